@@ -164,6 +164,29 @@ def _check_pair_on(ea, eb, LO, HI, spanb):
     return 9, f"ov{nov}", (tuple((s, e) for s, e, _ in ea), tuple((s, e) for s, e, _ in eb), spanb) if nov or ntouch else None, viols
 
 
+def _check_same_object(case):
+    """the SAME tier object passed as receiver and as argument (A.union(A) ...): the result is what the operation gives for A and an equal,
+    separately built tier - the operations are defined by the operands' values, not by whether they are one object"""
+    kind, entries = case
+    cls = IT if kind == "I" else PT
+    viols = []
+    ops = ("union", "intersection", "difference", "mergeLabels") if kind == "I" else ("union",)
+    for op in ops:
+        A, B = cls("A", list(entries), 0.0, 6.0), cls("A", list(entries), 0.0, 6.0)
+        want = call(getattr(A, op), B)
+        A2 = cls("A", list(entries), 0.0, 6.0)
+        before = canon(A2)
+        got = call(getattr(A2, op), A2)
+
+        def norm(x):
+            return ("raised", type(x[1]).__name__) if x[0] == "exc" else canon(x[1])
+        if norm(got) != norm(want):
+            viols.append(Viol("same-object-operand", f"{kind} tier {entries}: A.{op}(A) gives {norm(got)}, A.{op}(<equal copy of A>) gives {norm(want)}"))
+        elif canon(A2) != before:
+            viols.append(Viol("operand-mutated", f"{kind} tier {entries}: A.{op}(A) changed A"))
+    return len(ops) * 2, "ok", (kind, len(entries)), viols
+
+
 def _check_points(case):
     pa, pb = case[:2]
     lo, hi = case[2] if len(case) > 2 else (0.0, 4.0)
@@ -269,6 +292,16 @@ def parts(tier):
              "and the partition consequence; non-trivial = distinct geometry pairs with at least one overlap or touch"
              % (len(base), NC),
         bounds={"cells": NC, "tiers": len(base), "thorough_adds": "2-label tiers on 5 cells, B span 8"}))
+
+    def gen_same():
+        for ta in base:
+            yield ("I", _uniq(ta, "a"))
+        for pa in D.point_sets(D.unit_grid(4), 3):
+            yield ("P", D.labelled_points(pa))
+
+    ps.append(InputPart("setops-same-object-as-both-operands", gen_same, _check_same_object,
+                        rule="every tier on %d unit cells / every point subset, passed as receiver AND argument of union, intersection, difference, "
+                             "mergeLabels: same result as with an equal, separately built argument; the tier is unchanged" % NC, bounds={"cells": NC}))
 
     def gen_tight():
         for ta in base:
